@@ -99,6 +99,11 @@ def default_names(net):
 
 
 # ---------------------------------------------------------------------------
+def pname(tok):
+    """declared name of a symbolic parameter: model parameters keep their keyword name"""
+    return tok[2:] if tok.startswith("g.") else "p_" + tok.replace(".", "_")
+
+
 class Runner:
     """one network description + parameter values, with the implementation objects"""
 
@@ -131,13 +136,18 @@ class Runner:
             return self._F[key]
         import casadi as cs
         symtype = getattr(cs, sym)
-        sp = {t: symtype.sym("p_" + t.replace(".", "_")) for t in (ptoks or [])}
-        R = impl.Real(self.net, self.pv, names=self.names, sym_params=sp, reads=self.reads())
+        sp = {t: symtype.sym(pname(t)) for t in (ptoks or [])}
+        # the same network objects are re-used for every engine / option set / level (stepping is
+        # repeatable whatever was stepped or compiled before); only symbolic parameters need new elements
+        R = self.R if not ptoks else impl.Real(self.net, self.pv, names=self.names, sym_params=sp, reads=self.reads())
         eng = impl.CsEngine(sym)
         R.net.step(engine=eng, **nets.opts_kwargs(opts or {}), **R.step_kwargs())
-        params = {("p_" + t.replace(".", "_")): sp[t] for t in (ptoks or [])} or None
-        F = eng.to_function(R.net, compact=compact, more_out=more_out, parameters=params,
-                            T=R.step_kwargs()["T"])
+        params = {pname(t): sp[t] for t in (ptoks or [])} or None
+        # the documented idiom: the keyword parameters of the step are passed again
+        # (with extra outputs a declared model parameter must not be repeated as keyword: the flow
+        # recomputation receives both dictionaries as keywords)
+        other = {k: v for k, v in R.step_kwargs().items() if not (more_out and params and k in params)}
+        F = eng.to_function(R.net, compact=compact, more_out=more_out, parameters=params, **other)
         self._F[key] = (F, R)
         return F, R
 
@@ -150,7 +160,7 @@ class Runner:
         exp_in = [(n, len(t)) for n, t in lay]
         if ptoks:
             if compact <= 0:
-                exp_in += [("p_" + t.replace(".", "_"), 1) for t in ptoks]
+                exp_in += [(pname(t), 1) for t in ptoks]
             else:
                 exp_in += [("p", len(ptoks))]
         got_in = [(F.name_in(i), F.size1_in(i) * F.size2_in(i)) for i in range(F.n_in())]
@@ -254,6 +264,10 @@ def correspondence(out, ctx, cases, opts=None, engines=("np",), per_case_points=
             out["disagreements"].append({"what": "Coq model could not be evaluated", "error": str(ex)[-500:]})
             mt = {e: None for e in engines}
             st = None
+    # every third case reaches its final graph through replaced links / origins / destinations
+    cases = [nets.with_replacements(n, random.Random(1000 + i)) if i % 3 == 1 else
+             (nets.with_late_replacements(n, random.Random(2000 + i)) if i % 3 == 2 else n)
+             for i, n in enumerate(cases)]
     for ci, net in enumerate(cases):
         pv = nets.random_params(net, rng)
         pts = points_for(net, pv, rng, per_case_points)
@@ -274,6 +288,12 @@ def correspondence(out, ctx, cases, opts=None, engines=("np",), per_case_points=
             except Exception as ex:
                 got = ex
             out["coverage"]["evaluations"] += 1
+            anyk = "np" if mtree.get("np") else ("cs" if mtree.get("cs") else None)
+            if anyk and "ERR" not in mtree[anyk] and distinct is not None and not mtree.get("np"):
+                mv0 = dyn.eval_all(mtree[anyk], env)
+                brs0 = frozenset().union(*[b for (_, _, b) in mv0.values()]) if mv0 else frozenset()
+                if net.nontrivial():
+                    distinct.add((topo_key(net), brs0))
             if mtree.get("np") and "ERR" not in mtree["np"]:
                 mv = dyn.eval_all(mtree["np"], env)
                 if distinct is not None:
@@ -397,3 +417,1041 @@ def replay(failure):
     except Exception as ex:
         print("spec trees unavailable:", ex)
     return 0
+
+
+# ---------------------------------------------------------------------------
+# helpers shared by the metamorphic judges
+def states_close(a, b_, keys, scale_floor=1.0):
+    bad = []
+    for k in keys:
+        x, y = a[k], b_[k]
+        if not tree.close(x, y, max(abs(x), abs(y), scale_floor)):
+            bad.append((k, x, y))
+    return bad
+
+
+def flows_from_inputs(net, sv):
+    """q_{m,i} = rho v lambda of the inputs"""
+    q = {}
+    for l, v in net.links.items():
+        for i in range(v["N"]):
+            q[(l, i)] = sv[f"rho.{l}.{i}"] * sv[f"v.{l}.{i}"] * v["lanes"]
+    return q
+
+
+def balance_failures(net, pv, sv, nxt, qo_reported=None, q_reported=None):
+    """C02 oracle from inputs and outputs only.  nxt: {'rho+ l i','w+ o 0'}; returns list of str."""
+    T = pv["g.T"]
+    nodes, edges = net.graph()
+    q = flows_from_inputs(net, sv) if q_reported is None else q_reported
+    out = []
+    # origin flows: queued origins from the queue update, ideal origins from the first segment
+    qo = {}
+    node_of_origin = {o: n for (n, o, d) in nodes if o is not None}
+    for o, k in net.origins.items():
+        n = node_of_origin[o]
+        outs = [e for e in edges if e[0] == n]
+        if k == "ideal":
+            qo[o] = q[(outs[0][2], 0)] if outs else 0.0
+        else:
+            qo[o] = sv[f"d.{o}"] - (nxt[f"w+ {o} 0"] - sv[f"w.{o}"]) / T
+        if qo_reported is not None and f"qo {o} 0" in qo_reported:
+            rep = qo_reported[f"qo {o} 0"]
+            if not tree.close(rep, qo[o], max(abs(rep), abs(qo[o]), 1e3) * 1e2):
+                out.append(f"reported flow of origin {o} = {rep!r} but its queue update used {qo[o]!r}")
+    scale = max([abs(x) for x in q.values()] + [abs(x) for x in qo.values()] + [1.0])
+    # flow that entered the first segment of each link, from the density update
+    qin = {}
+    for (u, d, l) in edges:
+        lam, L = net.links[l]["lanes"], pv[f"lp.{l}.L"]
+        qin[l] = q[(l, 0)] + (nxt[f"rho+ {l} 0"] - sv[f"rho.{l}.0"]) * lam * L / T
+    for (n, o, d) in nodes:
+        outs = [e for e in edges if e[0] == n]
+        ins = [e for e in edges if e[1] == n]
+        if not outs:
+            continue
+        lhs = sum(qin[l] for (_, _, l) in outs)
+        rhs = sum(q[(l, net.links[l]["N"] - 1)] for (_, _, l) in ins) + (qo[o] if o is not None else 0.0)
+        if not tree.close(lhs, rhs, scale * 1e3):
+            out.append(f"node {n}: flows entering its leaving links sum to {lhs!r}, "
+                       f"entering links + origin give {rhs!r}")
+    # network-wide
+    dveh = 0.0
+    for l, v in net.links.items():
+        lam, L = v["lanes"], pv[f"lp.{l}.L"]
+        for i in range(v["N"]):
+            dveh += (nxt[f"rho+ {l} {i}"] - sv[f"rho.{l}.{i}"]) * lam * L
+    ext = 0.0
+    for o, k in net.origins.items():
+        if k == "ideal":
+            ext += qo[o]
+        else:
+            dveh += nxt[f"w+ {o} 0"] - sv[f"w.{o}"]
+            ext += sv[f"d.{o}"]
+    for (n, o, d) in nodes:
+        if d is not None:
+            for (_, _, l) in [e for e in edges if e[1] == n]:
+                ext -= q[(l, net.links[l]["N"] - 1)]
+    if not tree.close(dveh, T * ext, T * scale * 1e3 + 1.0):
+        out.append(f"network: vehicles changed by {dveh!r}, external balance gives {T * ext!r}")
+    return out
+
+
+def run_C02(ctx):
+    out = new_outcome()
+    distinct = set()
+    quick = ctx["tier"] == "quick"
+    cases = gen_cases(ctx, 12 if quick else 150)
+    data = correspondence(out, ctx, cases, engines=("np",), per_case_points=2 if quick else 8,
+                          distinct=distinct)
+    for (net, pv, pts, mtree, stree, run) in data:
+        for mode, sv in pts:
+            try:
+                got = run.numpy_step(sv)
+                for msg in balance_failures(net, pv, sv, got):
+                    fail(out, f"C02:{topo_key(net)}:np", net, pv, sv, "NumPy step: " + msg, reads_seed=run.reads_seed)
+            except Exception as ex:
+                disagree(out, net, pv, sv, f"NumPy step raised {ex!r:.200}")
+            for sym in (("SX",) if quick else ("SX", "MX")):
+                try:
+                    F, _ = run.function(sym, 0, True)
+                    vals, probs = run.call(F, 0, True, sv)
+                except Exception as ex:
+                    vals, probs = None, [repr(ex)[:200]]
+                if vals is None:
+                    disagree(out, net, pv, sv, "CasADi more_out: " + "; ".join(probs))
+                    continue
+                qrep = {(l, i): vals[f"q {l} {i}"] for l, v in net.links.items() for i in range(v["N"])}
+                for msg in balance_failures(net, pv, sv, vals, qo_reported=vals, q_reported=qrep):
+                    fail(out, f"C02:{topo_key(net)}:cs", net, pv, sv, f"CasADi {sym} function: " + msg,
+                         reads_seed=run.reads_seed)
+                out["coverage"]["evaluations"] += 1
+    return finish(out, distinct, data, RULE + "; oracle: vehicle balance computed from inputs and outputs only")
+
+
+# ---------------------------------------------------------------------------
+def run_C03(ctx):
+    out = new_outcome()
+    distinct = set()
+    quick = ctx["tier"] == "quick"
+    cases = gen_cases(ctx, 10 if quick else 120)
+    data = correspondence(out, ctx, cases, engines=("np", "cs"), per_case_points=2 if quick else 6,
+                          sym_types=("SX", "MX"), distinct=distinct)
+    rng = ctx["rng"]
+    for ci, (net, pv, pts, mtree, stree, run) in enumerate(data):
+        keys = state_keys(net)
+        for pi, (mode, sv) in enumerate(pts):
+            try:
+                ref = run.numpy_step(sv)
+            except Exception as ex:
+                fail(out, f"C03:{topo_key(net)}:npraise", net, pv, sv, f"NumPy step raised {ex!r:.200}")
+                continue
+            for sym in ("SX", "MX"):
+                levels = (0, 1, 2) if (not quick or (ci + pi) % 2 == 0) else (rng.choice([0, 1, 2]),)
+                for compact in levels:
+                    more = bool((ci + compact) % 2)
+                    try:
+                        F, _ = run.function(sym, compact, more)
+                        vals, probs = run.call(F, compact, more, sv)
+                    except Exception as ex:
+                        vals, probs = None, [f"raised {ex!r:.300}"]
+                    out["coverage"]["evaluations"] += 1
+                    if vals is None:
+                        fail(out, f"C03:{topo_key(net)}:{sym}{compact}", net, pv, sv,
+                             f"CasADi {sym} compact={compact}: " + "; ".join(probs), reads_seed=run.reads_seed)
+                        continue
+                    bad = states_close(vals, ref, keys)
+                    if bad:
+                        k, x, y = bad[0]
+                        fail(out, f"C03:{topo_key(net)}:{sym}{compact}", net, pv, sv,
+                             f"CasADi {sym} compact={compact}: {k} = {x!r}, NumPy step gives {y!r}",
+                             reads_seed=run.reads_seed, sym=sym, compact=compact, more_out=more)
+    return finish(out, distinct, data, RULE + "; every point on SX and MX at compactness 0/1/2 vs the NumPy step")
+
+
+# ---------------------------------------------------------------------------
+# C04: layout.  The documented layout is compared positionally with distinct entries; colliding
+# names are used on purpose (sizes/positions must not depend on names).
+def colliding_names(net, rng):
+    names = default_names(net)
+    ls = sorted(net.links)
+    os_ = sorted(net.origins)
+    ds = sorted(net.dests)
+    mode = rng.choice(["links", "origins", "all", "cross"])
+    if mode in ("links", "all") and len(ls) >= 2:
+        for l in ls:
+            names[("l", l)] = "A"
+    if mode in ("origins", "all") and len(os_) >= 2:
+        for o in os_:
+            names[("o", o)] = "R"
+    if mode == "cross":
+        for l in ls[:1]:
+            names[("l", l)] = "X"
+        for o in os_[:1]:
+            names[("o", o)] = "X"
+        for d in ds[:1]:
+            names[("d", d)] = "X"
+    return names
+
+
+def symbols_of(F):
+    import casadi as cs
+    ins = [F.sx_in(i) if F.is_a("SXFunction") else F.mx_in(i) for i in range(F.n_in())]
+    return ins
+
+
+def run_C04(ctx):
+    out = new_outcome()
+    distinct = set()
+    quick = ctx["tier"] == "quick"
+    rng = ctx["rng"]
+    cases = gen_cases(ctx, 10 if quick else 100)
+    data = correspondence(out, ctx, cases, engines=("cs",), per_case_points=1, sym_types=("SX",),
+                          distinct=distinct)
+    for ci, (net, pv, pts, mtree, stree, run0) in enumerate(data):
+        keys = state_keys(net)
+        for variant in range(2):
+            names = default_names(net) if variant == 0 else colliding_names(net, rng)
+            run = Runner(net, pv, names=names, reads_seed=(ci + 3) if ci % 3 == 0 else None)
+            sv = pts[0][1]
+            try:
+                ref = run.numpy_step(sv)
+            except Exception as ex:
+                fail(out, f"C04:{topo_key(net)}:npraise", net, pv, sv, f"NumPy step raised {ex!r:.300}",
+                     reads_seed=run.reads_seed)
+                continue
+            lev = {}
+            for sym in ("SX", "MX"):
+                for compact in (0, 1, 2):
+                    for more in ((False, True) if not quick or compact == ci % 3 else (bool(ci % 2),)):
+                        tag = f"{sym} compact={compact} more_out={more} names={'colliding' if variant else 'unique'}"
+                        try:
+                            F, R = run.function(sym, compact, more)
+                        except Exception as ex:
+                            fail(out, f"C04:{topo_key(net)}:compile", net, pv, sv, f"{tag}: to_function raised {ex!r:.300}",
+                                 names={str(k): v for k, v in names.items()})
+                            continue
+                        out["coverage"]["evaluations"] += 1
+                        if F.has_free():
+                            fail(out, f"C04:{topo_key(net)}:free", net, pv, sv, f"{tag}: free symbols {F.get_free()}")
+                        vals, probs = run.call(F, compact, more, sv)
+                        size_probs = [p for p in probs if "sizes" in p]
+                        name_probs = [p for p in probs if "names" in p]
+                        for p in name_probs:
+                            out["info"].append(f"{net.family} {tag}: {p[:300]}")
+                        if vals is None:
+                            fail(out, f"C04:{topo_key(net)}:sizes:{compact}", net, pv, sv, f"{tag}: " + "; ".join(size_probs),
+                                 names={str(k): v for k, v in names.items()}, compact=compact, sym=sym, more_out=more)
+                            continue
+                        bad = states_close(vals, ref, keys)
+                        if bad:
+                            k, x, y = bad[0]
+                            fail(out, f"C04:{topo_key(net)}:pos:{compact}", net, pv, sv,
+                                 f"{tag}: result in the position of {k} is {x!r}, the successor of that state "
+                                 f"argument is {y!r}", compact=compact, sym=sym, more_out=more,
+                                 names={str(k): v for k, v in names.items()})
+                        lev[(sym, compact, more)] = vals
+                        distinct.add((topo_key(net), sym, compact, more, variant))
+                        # arguments are exactly the independent symbols: every input is a pure symbol
+                        try:
+                            import casadi as cs
+                            for i in range(F.n_in()):
+                                x = F.sx_in(i) if sym == "SX" else F.mx_in(i)
+                                if sym == "SX" and not all(x[j].is_symbolic() for j in range(x.numel())):
+                                    fail(out, f"C04:{topo_key(net)}:indep", net, pv, sv, f"{tag}: argument {i} is not a vector of independent symbols")
+                        except Exception:
+                            pass
+    return finish(out, distinct, data, RULE + "; each network compiled with unique and with colliding element "
+                  "names on SX/MX at compactness 0/1/2 with/without extra outputs; results compared positionally "
+                  "with the NumPy step through the documented layout derived from the description; "
+                  "distinct = (topology, symbol type, level, more_out, naming)")
+
+
+# ---------------------------------------------------------------------------
+def run_C05(ctx):
+    out = new_outcome()
+    distinct = set()
+    quick = ctx["tier"] == "quick"
+    rng = ctx["rng"]
+    cases = gen_cases(ctx, 12 if quick else 120)
+    data = correspondence(out, ctx, cases, engines=("cs",), per_case_points=2 if quick else 6,
+                          sym_types=("SX",), distinct=distinct)
+    for ci, (net, pv, pts, mtree, stree, run0) in enumerate(data):
+        names = default_names(net) if ci % 2 == 0 else colliding_names(net, rng)
+        run = Runner(net, pv, names=names, reads_seed=run0.reads_seed)
+        T = pv["g.T"]
+        for pi, (mode, sv) in enumerate(pts):
+            for sym in ("SX", "MX"):
+                for compact in ((0, 1, 2) if not quick else ((ci + pi) % 3,)):
+                    tag = f"{sym} compact={compact}"
+                    try:
+                        F, _ = run.function(sym, compact, True)
+                        vals, probs = run.call(F, compact, True, sv)
+                    except Exception as ex:
+                        vals, probs = None, [f"raised {ex!r:.300}"]
+                    out["coverage"]["evaluations"] += 1
+                    if vals is None:
+                        fail(out, f"C05:{topo_key(net)}:layout", net, pv, sv, f"{tag}: " + "; ".join(probs),
+                             names={str(k): v for k, v in names.items()}, compact=compact, sym=sym)
+                        continue
+                    qin = flows_from_inputs(net, sv)
+                    for (l, i), x in qin.items():
+                        y = vals[f"q {l} {i}"]
+                        if not tree.close(x, y, max(abs(x), 1.0)):
+                            fail(out, f"C05:{topo_key(net)}:q", net, pv, sv,
+                                 f"{tag}: reported flow of segment {i} of link {l} = {y!r}, rho*v*lanes of the input = {x!r}",
+                                 compact=compact, sym=sym)
+                            break
+                    for o, k in net.origins.items():
+                        if k == "ideal":
+                            continue
+                        w1 = sv[f"w.{o}"] + T * (sv[f"d.{o}"] - vals[f"qo {o} 0"])
+                        if not tree.close(w1, vals[f"w+ {o} 0"], max(abs(sv[f"w.{o}"]), abs(T * vals[f"qo {o} 0"]), 1.0)):
+                            fail(out, f"C05:{topo_key(net)}:w", net, pv, sv,
+                                 f"{tag}: next queue of origin {o} = {vals[f'w+ {o} 0']!r} but w + T(d - reported flow) = {w1!r}",
+                                 compact=compact, sym=sym)
+                    qrep = {(l, i): vals[f"q {l} {i}"] for l, v in net.links.items() for i in range(v["N"])}
+                    for msg in balance_failures(net, pv, sv, vals, qo_reported=vals, q_reported=qrep):
+                        if msg.startswith("network"):
+                            continue
+                        fail(out, f"C05:{topo_key(net)}:balance", net, pv, sv, f"{tag}: " + msg, compact=compact, sym=sym)
+    return finish(out, distinct, data, RULE + "; identities on the outputs of to_function(more_out=True): q = rho v lanes, "
+                  "w+ = w + T(d - q_o), node balance with the reported origin flow")
+
+
+# ---------------------------------------------------------------------------
+def clamp_init(sv, flag):
+    pre = {"pi_rho": "rho.", "pi_v": "v.", "pi_w": "w."}[flag]
+    return {k: (max(0.0, x) if k.startswith(pre) else x) for k, x in sv.items()}
+
+
+def run_C11(ctx):
+    out = new_outcome()
+    distinct = set()
+    quick = ctx["tier"] == "quick"
+    rng = ctx["rng"]
+    cases = gen_cases(ctx, 6 if quick else 80)
+    opts_pool = all_opts()
+    # correspondence with a clamping option set
+    some_opts = {"pi_rho": True, "pn_v": True, "pi_w": True}
+    data = correspondence(out, ctx, cases, opts=some_opts, engines=("np",), per_case_points=1,
+                          sym_types=("SX",), distinct=distinct)
+    for ci, (net, pv, pts0, mtree, stree, run) in enumerate(data):
+        keys = state_keys(net)
+        for rep in range(2 if quick else 6):
+            sv = nets.random_state(net, pv, rng, "negative")
+            if dyn.near_excluded(net, pv, clamp_init(clamp_init(sv, "pi_rho"), "pi_v")) or dyn.near_excluded(net, pv, sv):
+                continue
+            chosen = [{n: (n == f) for n in OPT_NAMES} for f in OPT_NAMES] + \
+                     [rng.choice(opts_pool) for _ in range(2 if quick else 8)] + [{n: False for n in OPT_NAMES}]
+            for backend in ("np", "SX") if quick else ("np", "SX", "MX"):
+                def step(svx, o):
+                    if backend == "np":
+                        return run.numpy_step(svx, o)
+                    F, _ = run.function(backend, 0, False, o)
+                    vals, probs = run.call(F, 0, False, svx)
+                    if vals is None:
+                        raise RuntimeError("; ".join(probs))
+                    return vals
+                try:
+                    plain_cache = {}
+                    for o in chosen:
+                        got = step(sv, o)
+                        out["coverage"]["evaluations"] += 1
+                        svc = sv
+                        for f in ("pi_rho", "pi_v", "pi_w"):
+                            if o[f]:
+                                svc = clamp_init(svc, f)
+                        base = step(svc, {n: False for n in OPT_NAMES})
+                        exp = {}
+                        for k in keys:
+                            fl = {"rho+": "pn_rho", "v+": "pn_v", "w+": "pn_w"}[k.split()[0]]
+                            exp[k] = max(0.0, base[k]) if o[fl] else base[k]
+                        # a nan (negative density/speed left unclamped) is outside the admissible domain
+                        cmpkeys = [k for k in keys if not math.isnan(base[k])]
+                        bad = states_close(got, exp, cmpkeys)
+                        distinct.add((topo_key(net), tuple(sorted(o.items())), backend))
+                        if bad:
+                            k, x, y = bad[0]
+                            on = [n for n in OPT_NAMES if o[n]]
+                            fail(out, f"C11:{topo_key(net)}:{'+'.join(on) or 'none'}", net, pv, sv,
+                                 f"{backend}: options {on}: {k} = {x!r}, clamp(plain(clamp(x))) gives {y!r}",
+                                 opts=o, backend=backend)
+                except Exception as ex:
+                    fail(out, f"C11:{topo_key(net)}:raise", net, pv, sv,
+                         f"{backend}: stepping with positivity options raised {ex!r:.300} (network objects re-used "
+                         f"across option sets and engines)", backend=backend, reads_seed=run.reads_seed)
+    return finish(out, distinct, data, RULE + "; states with negative entries; each single option, random "
+                  "combinations and none; NumPy and CasADi; distinct = (topology, option set, backend)")
+
+
+# ---------------------------------------------------------------------------
+def rebuilt(net, rng, scale=True):
+    """the same network added in another order, with explicit add_node calls, other names
+    (possibly colliding), and the turn rates of each node's leaving links scaled"""
+    n2 = nets.Net()
+    n2.links, n2.origins, n2.dests = dict(net.links), dict(net.origins), dict(net.dests)
+    n2.has_delta, n2.has_phi, n2.family = net.has_delta, net.has_phi, net.family
+    ops = [op for op in net.ops if op[0] != "node" and op[0] != "use"
+           and not (op[0] == "link" and op[2] in net.x_links)
+           and not (op[0] == "origin" and op[1] in net.x_origins)
+           and not (op[0] == "dest" and op[1] in net.x_dests)]
+    rng.shuffle(ops)
+    nodes = sorted({x for op in ops if op[0] == "link" for x in (op[1], op[3])})
+    rng.shuffle(nodes)
+    for n in nodes:
+        if rng.random() < 0.5:
+            ops.insert(rng.randrange(len(ops) + 1), ("node", n))
+    n2.ops = ops
+    names = {}
+    pool = ["a", "b", "c", "a", "zz", "L1", "O1"]
+    for k in default_names(net):
+        names[k] = rng.choice(pool) + (str(rng.randrange(3)) if rng.random() < 0.5 else "")
+    factors = {}
+    if scale:
+        nodes_, edges = net.graph()
+        for (n, _, _) in nodes_:
+            factors[n] = rng.choice([1.0, 0.5, 3.0, 10.0])
+    return n2, names, factors
+
+
+def run_C14(ctx):
+    out = new_outcome()
+    distinct = set()
+    quick = ctx["tier"] == "quick"
+    rng = ctx["rng"]
+    cases = gen_cases(ctx, 12 if quick else 120)
+    data = correspondence(out, ctx, cases, engines=("np",), per_case_points=1, sym_types=("SX",),
+                          distinct=distinct)
+    for ci, (net, pv, pts, mtree, stree, run) in enumerate(data):
+        keys = state_keys(net)
+        sv = pts[0][1]
+        try:
+            ref = run.numpy_step(sv)
+        except Exception as ex:
+            continue
+        for rep in range(2 if quick else 6):
+            n2, names, factors = rebuilt(net, rng)
+            pv2 = dict(pv)
+            _, edges = net.graph()
+            for (u, d, l) in edges:
+                pv2[f"lp.{l}.turnrate"] = pv[f"lp.{l}.turnrate"] * factors.get(u, 1.0)
+            run2 = Runner(n2, pv2, names=names, reads_seed=rep if rep % 2 else None)
+            what = f"order={n2.ops} names={sorted(set(names.values()))} scale={factors}"
+            try:
+                got = run2.numpy_step(sv)
+                out["coverage"]["evaluations"] += 1
+                bad = states_close(got, ref, keys)
+                if bad:
+                    k, x, y = bad[0]
+                    fail(out, f"C14:{topo_key(net)}:np", net, pv, sv, f"NumPy: rebuilt network gives {k} = {x!r}, original {y!r}; {what}",
+                         rebuilt=n2.to_json(), pv2=pv2, names={str(k_): v for k_, v in names.items()})
+                for sym, compact in ((("SX", 0),) if quick else (("SX", 0), ("MX", 0), ("SX", 1), ("SX", 2))):
+                    F, _ = run2.function(sym, compact, False)
+                    vals, probs = run2.call(F, compact, False, sv)
+                    out["coverage"]["evaluations"] += 1
+                    if vals is None:
+                        fail(out, f"C14:{topo_key(net)}:cs", net, pv, sv, f"CasADi {sym} compact={compact} on the rebuilt network: " + "; ".join(p for p in probs if "sizes" in p) + "; " + what,
+                             rebuilt=n2.to_json(), names={str(k_): v for k_, v in names.items()})
+                        continue
+                    bad = states_close(vals, ref, keys)
+                    if bad:
+                        k, x, y = bad[0]
+                        fail(out, f"C14:{topo_key(net)}:cs", net, pv, sv, f"CasADi {sym} compact={compact}: rebuilt network gives {k} = {x!r}, original {y!r}; {what}",
+                             rebuilt=n2.to_json(), pv2=pv2, names={str(k_): v for k_, v in names.items()})
+                distinct.add((topo_key(net), tuple(n2.ops)))
+            except Exception as ex:
+                fail(out, f"C14:{topo_key(net)}:raise", net, pv, sv, f"rebuilt network raised {ex!r:.300}; {what}",
+                     rebuilt=n2.to_json(), names={str(k_): v for k_, v in names.items()})
+        # share of a node's inflow received by a leaving link = beta / sum(beta)
+        try:
+            F, _ = run.function("SX", 0, True)
+            vals, probs = run.call(F, 0, True, sv)
+        except Exception:
+            vals = None
+        if vals is not None:
+            nodes_, edges = net.graph()
+            T = pv["g.T"]
+            for (n, o, d) in nodes_:
+                outs = [e for e in edges if e[0] == n]
+                if len(outs) < 2:
+                    continue
+                qin = {l: vals[f"q {l} 0"] + (vals[f"rho+ {l} 0"] - sv[f"rho.{l}.0"]) * net.links[l]["lanes"] * pv[f"lp.{l}.L"] / T
+                       for (_, _, l) in outs}
+                tot = sum(qin.values())
+                sb = sum(pv[f"lp.{l}.turnrate"] for (_, _, l) in outs)
+                for (_, _, l) in outs:
+                    exp = pv[f"lp.{l}.turnrate"] / sb * tot
+                    if not tree.close(qin[l], exp, max(abs(tot), 1.0) * 1e3):
+                        fail(out, f"C14:{topo_key(net)}:share", net, pv, sv,
+                             f"link {l} leaving node {n} receives {qin[l]!r} of the node inflow {tot!r}; turn-rate share gives {exp!r}")
+    return finish(out, distinct, data, RULE + "; each network rebuilt in shuffled order with explicit add_node calls, random "
+                  "(colliding) names and per-node turn-rate scaling; distinct = (topology, construction order)")
+
+
+# ---------------------------------------------------------------------------
+# C10: structural dependence of the compiled function  ⊆  variables of the specification tree
+def run_C10(ctx):
+    import casadi as cs
+    out = new_outcome()
+    distinct = set()
+    quick = ctx["tier"] == "quick"
+    rng = ctx["rng"]
+    cases = gen_cases(ctx, 12 if quick else 120)
+    data = correspondence(out, ctx, cases, engines=("cs",), per_case_points=1, sym_types=("SX",),
+                          distinct=distinct)
+    for ci, (net, pv, pts, mtree, stree, run) in enumerate(data):
+        if stree is None:
+            continue
+        sv = pts[0][1]
+        for sym in (("SX",) if quick else ("SX", "MX")):
+            for compact in ((0, ci % 2 + 1) if quick else (0, 1, 2)):
+                try:
+                    F, _ = run.function(sym, compact, False)
+                except Exception as ex:
+                    disagree(out, net, pv, sv, f"compile raised {ex!r:.200}")
+                    continue
+                ilay = in_layout(net, compact, run.names)
+                olay = out_layout(net, compact, False, run.names)
+                if [F.size1_in(i) for i in range(F.n_in())] != [len(t) for _, t in ilay] or \
+                        [F.size1_out(i) for i in range(F.n_out())] != [len(t) for _, t in olay]:
+                    fail(out, f"C10:{topo_key(net)}:layout", net, pv, sv, f"{sym} compact={compact}: layout differs from the documented one")
+                    continue
+                for oi, (_, otoks) in enumerate(olay):
+                    for ii, (_, itoks) in enumerate(ilay):
+                        if not itoks or not otoks:
+                            continue
+                        sp = F.jac_sparsity(oi, ii)
+                        rows, cols = sp.get_triplet()
+                        for r, c in zip(rows, cols):
+                            okey, itok = otoks[r], itoks[c]
+                            allowed = tree.tree_vars(stree[okey])
+                            out["coverage"]["evaluations"] += 1
+                            if itok not in allowed:
+                                fail(out, f"C10:{topo_key(net)}:{okey.split()[0]}", net, pv, sv,
+                                     f"{sym} compact={compact}: result {okey} depends on {itok}, which is not "
+                                     f"among its model neighbours {sorted(allowed & set(sv))}", observable=okey, input=itok)
+                distinct.add((topo_key(net), sym, compact))
+        # numeric confirmation on the NumPy engine: perturb every input outside the neighbour set
+        try:
+            ref = run.numpy_step(sv)
+        except Exception:
+            continue
+        toks = [t for t in sv if not t.startswith("vc.") or True]
+        for t in (toks if not quick else rng.sample(toks, min(len(toks), 6))):
+            sv2 = dict(sv)
+            sv2[t] = sv[t] * 1.37 + 0.91
+            if dyn.near_excluded(net, pv, sv2):
+                continue
+            try:
+                got = run.numpy_step(sv2)
+            except Exception:
+                continue
+            out["coverage"]["evaluations"] += 1
+            for k in state_keys(net):
+                if t in tree.tree_vars(stree[k]):
+                    continue
+                if not (got[k] == ref[k] or (math.isnan(got[k]) and math.isnan(ref[k]))):
+                    fail(out, f"C10:{topo_key(net)}:np:{k.split()[0]}", net, pv, sv,
+                         f"NumPy: changing {t} changes {k} ({ref[k]!r} -> {got[k]!r}) although it is not a model neighbour",
+                         observable=k, input=t)
+    return finish(out, distinct, data, RULE + "; Jacobian sparsity of to_function at compactness 0/1/2 per result entry must "
+                  "be inside the variable set of that entry's specification tree; NumPy perturbation of non-neighbours")
+
+
+# ---------------------------------------------------------------------------
+def run_C16(ctx):
+    out = new_outcome()
+    distinct = set()
+    quick = ctx["tier"] == "quick"
+    rng = ctx["rng"]
+    cases = gen_cases(ctx, 6 if quick else 80)
+    data = correspondence(out, ctx, cases, engines=("cs",), per_case_points=1, sym_types=("SX",),
+                          distinct=distinct)
+    for ci, (net, pv, pts, mtree, stree, run) in enumerate(data):
+        keys = state_keys(net)
+        sv = pts[0][1]
+        cand = []
+        for l in net.links:
+            cand += [f"lp.{l}.{p}" for p in ("rho_crit", "v_free", "a", "L", "rho_max", "turnrate")]
+            if net.links[l]["vsl"] is not None:
+                cand.append(f"lp.{l}.alpha")
+        cand += [f"C.{o}" for o, k in net.origins.items() if k in nets.RAMPS]
+        cand += ["g.T", "g.tau", "g.eta", "g.kappa"] + (["g.delta"] if net.has_delta else []) + (["g.phi"] if net.has_phi else [])
+        for rep in range(2 if quick else 5):
+            ptoks = rng.sample(cand, rng.randint(1, min(6, len(cand))))
+            if rep == 0:
+                ptoks = [t for t in cand if t.startswith("g.")][::-1] + ptoks[:2]
+                ptoks = list(dict.fromkeys(ptoks))
+            for sym in ("SX", "MX"):
+                for compact in ((0, 1, 2) if not quick else ((ci + rep) % 3,)):
+                    more = bool((ci + rep) % 2)
+                    tag = f"{sym} compact={compact} more_out={more} parameters={ptoks}"
+                    try:
+                        Fn, _ = run.function(sym, compact, more)
+                        ref, probs = run.call(Fn, compact, more, sv)
+                        if ref is None:
+                            continue
+                    except Exception:
+                        continue
+                    try:
+                        Fp, _ = run.function(sym, compact, more, None, ptoks)
+                    except Exception as ex:
+                        fail(out, f"C16:{topo_key(net)}:compile", net, pv, sv, f"{tag}: compiling with symbolic parameters raised {ex!r:.300}",
+                             ptoks=ptoks, sym=sym, compact=compact)
+                        continue
+                    vals, probs = run.call(Fp, compact, more, sv, ptoks)
+                    out["coverage"]["evaluations"] += 1
+                    distinct.add((topo_key(net), tuple(ptoks), sym, compact))
+                    if vals is None:
+                        fail(out, f"C16:{topo_key(net)}:layout", net, pv, sv, f"{tag}: " + "; ".join(probs), ptoks=ptoks, sym=sym, compact=compact)
+                        continue
+                    for p in probs:
+                        if "argument names" in p:
+                            fail(out, f"C16:{topo_key(net)}:order", net, pv, sv, f"{tag}: {p[:400]}", ptoks=ptoks, sym=sym, compact=compact)
+                    allk = keys + ([k for k in ref if k.startswith("q")] if more else [])
+                    bad = states_close(vals, ref, allk)
+                    if bad:
+                        k, x, y = bad[0]
+                        fail(out, f"C16:{topo_key(net)}:value", net, pv, sv,
+                             f"{tag}: {k} = {x!r} with symbolic parameters evaluated at their values, {y!r} with numbers",
+                             ptoks=ptoks, sym=sym, compact=compact)
+    return finish(out, distinct, data, RULE + "; random subsets and orders of link/origin/model parameters made symbolic and declared; "
+                  "SX/MX, compactness 0/1/2, with/without extra outputs; distinct = (topology, parameter list, symbol type, level)")
+
+
+# ---------------------------------------------------------------------------
+def corner_state(net, pv, rng):
+    """states where several limits of the origin laws are active at once"""
+    sv = nets.random_state(net, pv, rng, "boundary")
+    for o, k in net.origins.items():
+        sv[f"w.{o}"] = rng.choice([0.0, 0.0, 5.0, 500.0])
+        sv[f"d.{o}"] = rng.choice([0.0, 100.0, 5000.0, 20000.0])
+        if k == "main":
+            sv[f"u.{o}"] = rng.choice([0.0, 1.0, 4.0, 50.0, 1e6, math.inf])
+        elif k in ("ramp_in", "ramp_out"):
+            sv[f"u.{o}"] = rng.choice([0.0, 1.0, 0.5, 0.97])
+        else:
+            sv[f"u.{o}"] = rng.choice([0.0, 1e6, 1500.0, math.inf])
+    nodes, edges = net.graph()
+    for (n, o, d) in nodes:
+        if o is not None:
+            for (_, _, l) in [e for e in edges if e[0] == n]:
+                sv[f"rho.{l}.0"] = rng.choice([0.0, pv[f"lp.{l}.rho_max"], pv[f"lp.{l}.rho_crit"], 5.0,
+                                               0.5 * (pv[f"lp.{l}.rho_max"] + pv[f"lp.{l}.rho_crit"])])
+                sv[f"v.{l}.0"] = rng.choice([0.0, 1.0, 0.04 * pv[f"lp.{l}.v_free"], 60.0, 150.0])
+    return sv
+
+
+def run_C17(ctx):
+    from harness import p_prims
+    out = p_prims.run_primitives(ctx, 8 if ctx["tier"] == "quick" else 80, judge_C17_prim)
+    distinct = set()
+    quick = ctx["tier"] == "quick"
+    rng = ctx["rng"]
+    cases = [n for n in gen_cases(ctx, 12 if quick else 120) if any(k != "ideal" for k in n.origins.values())]
+    out2 = new_outcome()
+    data = correspondence(out2, ctx, cases, engines=("np",), per_case_points=1, sym_types=("SX",), distinct=distinct)
+    out["disagreements"] += out2["disagreements"]
+    for ci, (net, pv, pts, mtree, stree, run) in enumerate(data):
+        T = pv["g.T"]
+        nodes, edges = net.graph()
+        node_of = {o: n for (n, o, d) in nodes if o is not None}
+        for rep in range(4 if quick else 20):
+            sv = corner_state(net, pv, rng)
+            if dyn.near_excluded(net, pv, sv):
+                continue
+            results = []
+            try:
+                results.append(("NumPy", run.numpy_step(sv), None))
+            except Exception as ex:
+                pass
+            try:
+                F, _ = run.function("SX", 0, True)
+                vals, probs = run.call(F, 0, True, sv)
+                if vals is not None:
+                    results.append(("CasADi", vals, vals))
+            except Exception:
+                pass
+            for (who, nxt, rep_q) in results:
+                out["coverage"]["evaluations"] += 1
+                for o, k in net.origins.items():
+                    if k in ("ideal", "simp_unl"):
+                        continue
+                    l = [e for e in edges if e[0] == node_of[o]][0][2]
+                    q = sv[f"d.{o}"] - (nxt[f"w+ {o} 0"] - sv[f"w.{o}"]) / T
+                    if rep_q is not None:
+                        q = rep_q[f"qo {o} 0"]
+                    dem = sv[f"d.{o}"] + sv[f"w.{o}"] / T
+                    scale = max(abs(dem), abs(q), 1.0)
+                    tol = 1e-7 * scale
+                    if k == "main":
+                        a, vf, rc, lam = pv[f"lp.{l}.a"], pv[f"lp.{l}.v_free"], pv[f"lp.{l}.rho_crit"], net.links[l]["lanes"]
+                        cap = lam * vf * math.exp(-1 / a) * rc
+                    else:
+                        cap = pv[f"C.{o}"]
+                    msgs = []
+                    if q < -tol:
+                        msgs.append(f"negative flow {q!r}")
+                    if q > dem + tol:
+                        msgs.append(f"flow {q!r} exceeds demand + queue/T = {dem!r}")
+                    if q > cap * (1 + 1e-9) + tol:
+                        msgs.append(f"flow {q!r} exceeds capacity {cap!r}")
+                    if k != "main" and sv[f"rho.{l}.0"] == pv[f"lp.{l}.rho_max"] and abs(q) > tol:
+                        msgs.append(f"flow {q!r} at maximum density")
+                    if nxt[f"w+ {o} 0"] < -1e-9 * max(1.0, abs(sv[f"w.{o}"]), T * scale):
+                        msgs.append(f"next queue {nxt[f'w+ {o} 0']!r} negative")
+                    for m_ in msgs:
+                        fail(out, f"C17:{k}:{m_.split()[0]}", net, pv, sv, f"{who}: origin {o} ({k}): {m_}", origin=o)
+                    distinct.add((topo_key(net), k, sv[f"u.{o}"], sv[f"rho.{l}.0"] == pv[f"lp.{l}.rho_max"]))
+    out["coverage"]["evaluations"] += out2["coverage"]["evaluations"]
+    out["coverage"]["distinct_nontrivial"] += len(distinct)
+    out["coverage"]["rule"] += " || networks: origin flows (reported or recovered from the queue update) at corner states"
+    return out
+
+
+def judge_C17_prim(var, vals, npv, csv, mvals):
+    name = var["name"]
+    if var["cls"] != "OriginsEngine" or name == "step_queue":
+        return []
+    if name == "get_simplifiedramp_flow" and var["s"] == "unlimited":
+        return []
+    out = []
+    T = vals["T"]
+    dem = vals["d"] + vals["w"] / T
+    if name == "get_mainstream_flow":
+        cap = vals["lanes"] * vals["v_free"] * math.exp(-1 / vals["a"]) * vals["rho_crit"]
+    else:
+        cap = vals["C"]
+    for who, res in (("numpy", npv), ("casadi", csv)):
+        if isinstance(res, Exception):
+            continue
+        q = res[0]
+        tol = 1e-7 * max(abs(dem), abs(q), 1.0)
+        if not math.isfinite(q):
+            out.append(f"{who}: flow {q!r} not finite")
+            continue
+        if q < -tol:
+            out.append(f"{who}: negative flow {q!r}")
+        if q > dem + tol:
+            out.append(f"{who}: flow {q!r} exceeds demand + queue/T {dem!r}")
+        if q > cap * (1 + 1e-9) + tol:
+            out.append(f"{who}: flow {q!r} exceeds capacity {cap!r}")
+        if name != "get_mainstream_flow" and vals["rho_first"] == vals["rho_max"] and abs(q) > tol:
+            out.append(f"{who}: flow {q!r} at maximum density")
+        if vals["w"] + T * (vals["d"] - q) < -1e-9 * max(1.0, vals["w"]):
+            out.append(f"{who}: next queue negative")
+    return out[:1]
+
+
+# ---------------------------------------------------------------------------
+# C18: paired networks (controlled vs plain element) from identical states
+def variant_net(net, change):
+    import copy
+    n2 = copy.deepcopy(net)
+    change(n2)
+    return n2
+
+
+def run_C18(ctx):
+    from harness import p_prims
+    out = p_prims.run_primitives(ctx, 4 if ctx["tier"] == "quick" else 40, lambda *a: [])
+    out["coverage"]["rule"] = "primitive correspondence (see C15) || " + RULE
+    distinct = set()
+    quick = ctx["tier"] == "quick"
+    rng = ctx["rng"]
+    cases = [n for n in gen_cases(ctx, 14 if quick else 150)]
+    out2 = new_outcome()
+    data = correspondence(out2, ctx, cases, engines=("np",), per_case_points=1, sym_types=("SX",), distinct=distinct)
+    out["disagreements"] += out2["disagreements"]
+    out["coverage"]["evaluations"] += out2["coverage"]["evaluations"]
+    INF = [math.inf, 1e9]
+
+    def steps(run, sv, backends, opts=None):
+        res = {}
+        for b_ in backends:
+            try:
+                if b_ == "np":
+                    res[b_] = run.numpy_step(sv, opts)
+                else:
+                    F, _ = run.function(b_, 0, True, opts)
+                    vals, probs = run.call(F, 0, True, sv)
+                    if vals is not None:
+                        res[b_] = vals
+            except Exception as ex:
+                res[b_] = ex
+        return res
+
+    backends = ("np", "SX") if quick else ("np", "SX", "MX")
+    for ci, (net, pv, pts, mtree, stree, run) in enumerate(data):
+        keys = state_keys(net)
+        sv0 = pts[0][1]
+        # --- VSL links: infinite limits / no limited segment == plain link; finite never raises v+
+        link_ids = sorted(net.links)
+        if quick and len(link_ids) > 2:
+            link_ids = rng.sample(link_ids, 2)
+        for l in link_ids:
+            v = net.links[l]
+            plain = variant_net(net, lambda n: n.links[l].update(vsl=None))
+            for vi, vslset in enumerate(([], list(range(v["N"])), [v["N"] - 1])):
+                if quick and vi != (ci + l) % 3:
+                    continue
+                ctl = variant_net(net, lambda n: n.links[l].update(vsl=list(vslset)))
+                sv = dict(sv0)
+                for k in [k for k in sv if k.startswith(f"vc.{l}.")]:
+                    del sv[k]
+                svp = dict(sv)
+                for k in range(len(vslset)):
+                    sv[f"vc.{l}.{k}"] = rng.choice(INF)
+                pvc = dict(pv)
+                pvc.setdefault(f"lp.{l}.alpha", 0.1)
+                rp, rc = steps(Runner(plain, pvc), svp, backends), steps(Runner(ctl, pvc), sv, backends)
+                # the same pair from a state with negative entries under the init-clamping options
+                svn = nets.random_state(net, pv, rng, "negative")
+                for k in [k for k in svn if k.startswith(f"vc.{l}.")]:
+                    del svn[k]
+                svnc = dict(svn)
+                for k in range(len(vslset)):
+                    svnc[f"vc.{l}.{k}"] = math.inf
+                o_ = {"pi_v": True, "pi_rho": True, "pi_w": True}
+                rpn, rcn = steps(Runner(plain, pvc), svn, backends[:1], o_), steps(Runner(ctl, pvc), svnc, backends[:1], o_)
+                for b_ in backends[:1]:
+                    if isinstance(rpn.get(b_), dict) and isinstance(rcn.get(b_), dict):
+                        bad = states_close(rcn[b_], rpn[b_], [k for k in keys if not math.isnan(rpn[b_][k])])
+                        if bad:
+                            k, x, y = bad[0]
+                            fail(out, f"C18:vsl-neutral-opts:{len(vslset)}", net, pv, svnc, f"{b_}: positive-init options, link {l} with limited segments {vslset} and infinite limits gives {k} = {x!r}; plain link gives {y!r}", link=l, vsl=vslset, opts=o_)
+                for b_ in backends:
+                    out["coverage"]["evaluations"] += 1
+                    if isinstance(rp.get(b_), dict) and isinstance(rc.get(b_), dict):
+                        bad = states_close(rc[b_], rp[b_], keys)
+                        if bad:
+                            k, x, y = bad[0]
+                            fail(out, f"C18:vsl-neutral:{len(vslset)}", net, pv, sv, f"{b_}: link {l} with limited segments {vslset} and infinite limits gives {k} = {x!r}; plain link gives {y!r}", link=l, vsl=vslset)
+                    elif isinstance(rc.get(b_), Exception) and not isinstance(rp.get(b_), Exception):
+                        fail(out, f"C18:vsl-raise:{len(vslset)}", net, pv, sv, f"{b_}: link {l} with limited segments {vslset}: {rc[b_]!r:.300}", link=l, vsl=vslset)
+                # finite limits
+                if vslset:
+                    svf = dict(sv)
+                    for k in range(len(vslset)):
+                        svf[f"vc.{l}.{k}"] = rng.choice([0.0, 10.0, 40.0, 90.0])
+                    rf = steps(Runner(ctl, pvc), svf, backends)
+                    for b_ in backends:
+                        if isinstance(rp.get(b_), dict) and isinstance(rf.get(b_), dict):
+                            for k in keys:
+                                x, y = rf[b_][k], rp[b_][k]
+                                if k.startswith("v+ ") and int(k.split()[1]) == l:
+                                    seg = int(k.split()[2])
+                                    if x > y + 1e-9 * max(1.0, abs(y)):
+                                        fail(out, "C18:vsl-raises-speed", net, pv, svf, f"{b_}: finite limit raises {k}: {x!r} > plain {y!r}", link=l, vsl=vslset)
+                                    if seg not in vslset and not tree.close(x, y, max(abs(y), 1.0)):
+                                        fail(out, "C18:vsl-unlisted", net, pv, svf, f"{b_}: unlimited segment {seg} of link {l} changed: {x!r} vs {y!r}", link=l, vsl=vslset)
+                                elif not tree.close(x, y, max(abs(y), 1.0)):
+                                    fail(out, "C18:vsl-other", net, pv, svf, f"{b_}: a speed limit on link {l} changed {k}: {x!r} vs {y!r}", link=l, vsl=vslset)
+                distinct.add((topo_key(net), "vsl", l, tuple(vslset)))
+        # --- origins
+        for o, k in net.origins.items():
+            if k in ("ramp_in", "ramp_out", "simp_lim"):
+                sv = dict(sv0)
+                ref = None
+                for kind, u in (("ramp_out", 1.0), ("ramp_in", 1.0), ("simp_lim", rng.choice(INF))):
+                    var = variant_net(net, lambda n: n.origins.__setitem__(o, kind))
+                    s2 = dict(sv)
+                    s2[f"u.{o}"] = u
+                    r = steps(Runner(var, pv), s2, backends)
+                    out["coverage"]["evaluations"] += 1
+                    if ref is None:
+                        ref = r
+                        continue
+                    for b_ in backends:
+                        if isinstance(ref.get(b_), dict) and isinstance(r.get(b_), dict):
+                            bad = states_close(r[b_], ref[b_], keys + [f"qo {o} 0"] if b_ != "np" else keys)
+                            if bad:
+                                kk, x, y = bad[0]
+                                fail(out, f"C18:ramp-neutral:{kind}", net, pv, s2, f"{b_}: origin {o} as {kind} with neutral control gives {kk} = {x!r}; metered 'out' ramp at rate 1 gives {y!r}", origin=o, kind=kind)
+                distinct.add((topo_key(net), "ramp", o))
+            if k == "main":
+                sv = dict(sv0)
+                nodes, edges = net.graph()
+                n_o = [n for (n, oo, d) in nodes if oo == o][0]
+                l1 = [e for e in edges if e[0] == n_o][0][2]
+                s_inf, s_first = dict(sv), dict(sv)
+                s_inf[f"u.{o}"] = rng.choice(INF)
+                s_first[f"u.{o}"] = sv[f"v.{l1}.0"]
+                ra, rb = steps(run, s_inf, backends), steps(run, s_first, backends)
+                out["coverage"]["evaluations"] += 1
+                for b_ in backends:
+                    if isinstance(ra.get(b_), dict) and isinstance(rb.get(b_), dict):
+                        bad = states_close(ra[b_], rb[b_], keys)
+                        if bad:
+                            kk, x, y = bad[0]
+                            fail(out, "C18:main-neutral", net, pv, s_inf, f"{b_}: mainstream origin {o} with infinite speed limit gives {kk} = {x!r}; limited to its first-segment speed gives {y!r}", origin=o)
+                distinct.add((topo_key(net), "main", o))
+    out["coverage"]["distinct_nontrivial"] += len(distinct)
+    return out
+
+
+# ---------------------------------------------------------------------------
+# C07: whatever the implementation's validation accepts must step and compile everywhere
+def random_any(rng, nmax=4):
+    n = rng.randint(1, nmax)
+    p = rng.choice([0.2, 0.35, 0.5])
+    edges = [(u, d) for u in range(n) for d in range(n) if rng.random() < (p if u != d else 0.08)]
+    origins = {x: rng.choice(nets.OKINDS) for x in range(n) if rng.random() < 0.5}
+    dests = {x: rng.choice(nets.DKINDS) for x in range(n) if rng.random() < 0.4}
+    net = nets.from_edges(edges, origins, dests, rng, order=rng.choice(["given", "shuffled"]), family="any")
+    for x in range(n):
+        if rng.random() < 0.3:
+            net.ops.insert(rng.randrange(len(net.ops) + 1), ("node", x))
+    return net
+
+
+def perturbed(net, rng):
+    """a valid description with one random structural edit (mostly invalid afterwards)"""
+    import copy
+    n2 = copy.deepcopy(net)
+    n2.family = "perturbed-" + net.family
+    nodes, edges = net.graph()
+    ids = [n for (n, _, _) in nodes]
+    kind = rng.choice(["edge", "edge", "origin", "dest", "okind", "dkind"])
+    if kind == "edge":
+        l = max(n2.links) + 1
+        n2.links[l] = dict(N=rng.choice([1, 2]), lanes=rng.choice([1, 2, 3]), vsl=None)
+        u = rng.choice(ids)
+        d = rng.choice(ids + [max(ids) + 1])
+        if (u, d) in [(a, b) for (a, b, _) in edges]:
+            return None
+        n2.ops.append(("link", u, l, d))
+    elif kind == "origin":
+        o = max(list(n2.origins) + [-1]) + 1
+        n2.origins[o] = rng.choice(nets.OKINDS)
+        n2.ops.append(("origin", o, rng.choice(ids)))
+    elif kind == "dest":
+        d = max(list(n2.dests) + [-1]) + 1
+        n2.dests[d] = rng.choice(nets.DKINDS)
+        n2.ops.append(("dest", d, rng.choice(ids)))
+    elif kind == "okind" and n2.origins:
+        n2.origins[rng.choice(sorted(n2.origins))] = rng.choice(nets.OKINDS)
+    elif kind == "dkind" and n2.dests:
+        n2.dests[rng.choice(sorted(n2.dests))] = rng.choice(nets.DKINDS)
+    if rng.random() < 0.3:
+        n2 = perturbed(n2, rng) or n2
+    # elements no longer attached (replaced) are not part of the network
+    nodes, edges = n2.graph()
+    att_l = {l for (_, _, l) in edges}
+    att_o = {o for (_, o, _) in nodes if o is not None}
+    att_d = {d for (_, _, d) in nodes if d is not None}
+    for l in [l for l in n2.links if l not in att_l]:
+        n2.x_links[l] = n2.links.pop(l)
+    for o in [o for o in n2.origins if o not in att_o]:
+        n2.x_origins[o] = n2.origins.pop(o)
+    for d in [d for d in n2.dests if d not in att_d]:
+        n2.x_dests[d] = n2.dests.pop(d)
+    return n2
+
+
+def run_C07(ctx):
+    import casadi as cs
+    out = new_outcome()
+    distinct = set()
+    quick = ctx["tier"] == "quick"
+    rng = ctx["rng"]
+    valid_cases = gen_cases(ctx, 10 if quick else 100)
+    data = correspondence(out, ctx, valid_cases, engines=("np",), per_case_points=1, sym_types=("SX",), distinct=distinct)
+    cand = [random_any(rng) for _ in range(120 if quick else 3000)]
+    for i in range(250 if quick else 5000):
+        p_ = perturbed(valid_cases[i % len(valid_cases)], rng)
+        if p_ is not None:
+            cand.append(p_)
+    accepted = []
+    for net in cand:
+        pv = nets.random_params(net, rng)
+        try:
+            R = impl.Real(net, pv)
+            ok = R.net.is_valid()[0]
+        except Exception as ex:
+            continue
+        out["coverage"]["evaluations"] += 1
+        if ok and net.graph()[1]:        # (the empty network is vacuously valid: nothing to step)
+            accepted.append((net, pv))
+            if not net.is_valid():
+                out["info"].append(f"implementation accepts a graph the description-level validity rejects: {net.to_json()}")
+    todo = [(n, pv, None) for (n, pv) in accepted] + [(n, pv, run) for (n, pv, pts, mt, stt, run) in data]
+    out["coverage"]["accepted_arbitrary_graphs"] = len(accepted)
+    out["coverage"]["arbitrary_graphs_tried"] = len(cand)
+    for ci, (net, pv, run) in enumerate(todo):
+        run = run or Runner(net, pv)
+        tk = topo_key(net)
+        R = run.R
+        if not R.net.is_valid()[0]:
+            continue
+        # 1) NumPy with the engine's own variables
+        for vt in ("rand",):
+            try:
+                with np.errstate(all="ignore"):
+                    R.net.step(engine=impl.NpEngine(vt), **R.step_kwargs())
+                for el in list(R.links.values()) + list(R.origins.values()):
+                    if el.states and el in set(R.net.elements):
+                        for nm, x in el.states.items():
+                            if np.shape(el.next_states[nm]) != np.shape(x):
+                                fail(out, f"C07:{tk}:shape", net, pv, None, f"NumPy own variables: next {nm} of {el.name} has shape {np.shape(el.next_states[nm])}, state {np.shape(x)}")
+            except Exception as ex:
+                fail(out, f"C07:{tk}:np-own", net, pv, None, f"NumPy engine with its own variables: step raised {ex!r:.300}")
+            out["coverage"]["evaluations"] += 1
+        # 2) NumPy with user arrays of the three scalar shapes, at boundary states; finiteness
+        for shape in ("vec1", "zerod", "float"):
+            sv = dyn.admissible_state(net, pv, rng, "boundary")
+            for k in list(sv):
+                if math.isinf(sv[k]):
+                    sv[k] = 1e6      # the finiteness clause is about finite inputs
+            try:
+                got = run.numpy_step(sv, None, shape)
+                out["coverage"]["evaluations"] += 1
+                for k in state_keys(net):
+                    if not math.isfinite(got[k]):
+                        fail(out, f"C07:{tk}:finite", net, pv, sv, f"NumPy ({shape} scalars): {k} = {got[k]!r} for finite admissible inputs", scalar_shape=shape)
+                        break
+                for l, v in net.links.items():
+                    for tag in ("rho+", "v+"):
+                        if got[f"shape {tag} {l}"] != (v["N"],):
+                            fail(out, f"C07:{tk}:shape", net, pv, sv, f"NumPy ({shape}): next {tag} of link {l} has shape {got[f'shape {tag} {l}']}", scalar_shape=shape)
+                for o, k in net.origins.items():
+                    if k != "ideal":
+                        exp = {"vec1": (1,), "zerod": (), "float": ()}[shape]
+                        if got[f"shape w+ {o}"] != exp:
+                            fail(out, f"C07:{tk}:shape", net, pv, sv, f"NumPy ({shape}): next queue of origin {o} has shape {got[f'shape w+ {o}']}, its state {exp}", scalar_shape=shape)
+            except Exception as ex:
+                fail(out, f"C07:{tk}:np-user", net, pv, sv, f"NumPy engine with user arrays ({shape} scalars): step raised {ex!r:.300}", scalar_shape=shape)
+        # 3) CasADi both symbol types, every level
+        for sym in ("SX", "MX"):
+            for compact in (0, 1, 2):
+                for more in ((False, True) if not quick or compact == ci % 3 else (bool((ci + compact) % 2),)):
+                    try:
+                        F, _ = run.function(sym, compact, more)
+                        sv = dyn.admissible_state(net, pv, rng, "boundary")
+                        for k in list(sv):
+                            if math.isinf(sv[k]):
+                                sv[k] = 1e6
+                        vals, probs = run.call(F, compact, more, sv)
+                        out["coverage"]["evaluations"] += 1
+                        if vals is not None:
+                            for k in state_keys(net):
+                                if not math.isfinite(vals[k]):
+                                    fail(out, f"C07:{tk}:finite", net, pv, sv, f"CasADi {sym} compact={compact}: {k} = {vals[k]!r} for finite admissible inputs")
+                                    break
+                    except Exception as ex:
+                        fail(out, f"C07:{tk}:cs", net, pv, None, f"CasADi {sym} compact={compact} more_out={more}: step/compile raised {ex!r:.300}", sym=sym, compact=compact)
+            # shapes of symbolic next states
+            try:
+                for el in list(R.links.values()) + list(R.origins.values()):
+                    if el.states and el.next_states and el in set(R.net.elements):
+                        for nm, x in el.states.items():
+                            if hasattr(x, "shape") and hasattr(el.next_states[nm], "shape") and el.next_states[nm].shape != x.shape:
+                                fail(out, f"C07:{tk}:shape", net, pv, None, f"CasADi {sym}: next {nm} of {el.name} has shape {el.next_states[nm].shape}, state {x.shape}")
+            except Exception:
+                pass
+        distinct.add(tk)
+    out = finish(out, distinct, data, RULE + "; plus random ARBITRARY small graphs (any attachment) filtered by the implementation's own "
+                 "is_valid: every accepted network is stepped with NumPy (own variables; user arrays with (1,), 0-d and float "
+                 "scalars) and CasADi SX/MX and compiled at compactness 0/1/2 with/without extra outputs, at boundary states")
+    return out
